@@ -711,7 +711,7 @@ pub fn slow_body_scenarios(shared: &Mutex<Evidence>, full: bool) {
         if o.canary || !o.smuggled_opaques.is_empty() {
             e.violation(
                 Viol::new(
-                    &["C09", "C12", "C13", "C18"],
+                    &["C09", "C12", "C13", "C18", "C11"],
                     "body-bytes-executed",
                     format!(
                         "{}: the body crossed the 1 s receive timeout and bytes inside the announced body were executed as requests (canary key stored: {}, responses to smuggled opaques: {:x?}); answers {:?}",
@@ -925,7 +925,8 @@ pub fn run_c13(ctx: &Ctx) -> i32 {
     let shared = Mutex::new(ev0);
     let limits: Vec<u32> = if ctx.thorough() { vec![1024, 4096, 65536, 1 << 20, 4 << 20] } else { vec![1024, 65536] };
     // "for every opcode": an oversized quit / quitq is refused like any other request and does not end the connection
-    let ops: Vec<u8> = if ctx.thorough() { (0..op::MAX).filter(|o| op::is_known(*o)).collect() } else { BIG_OPS[..8].to_vec() };
+    // every opcode the protocol knows (implemented, quiet, unimplemented): "both hold for every opcode"
+    let ops: Vec<u8> = (0..op::MAX).filter(|o| op::is_known(*o)).collect();
     // case list
     let mut cases: Vec<(u32, u8, usize, usize, usize)> = vec![];
     for (li, l) in limits.iter().enumerate() {
@@ -934,7 +935,7 @@ pub fn run_c13(ctx: &Ctx) -> i32 {
                 for pos in 0..3 {
                     for split in 0..8 {
                         // quick: thin out positions for the larger limit
-                        if !ctx.thorough() && li == 1 && (pos != 1 || bc == 4) {
+                        if !ctx.thorough() && li == 1 && (pos != 1 || bc == 4 || !BIG_OPS[..8].contains(o)) {
                             continue;
                         }
                         if *l >= (1 << 20) && bc == 4 && split % 2 == 1 {
@@ -942,6 +943,10 @@ pub fn run_c13(ctx: &Ctx) -> i32 {
                         }
                         // a quit whose body is within the limit is a quit: it ends the connection by design
                         if (*o == op::QUIT || *o == op::QUITQ) && bc < 2 {
+                            continue;
+                        }
+                        // likewise a flush within the limit is a flush: it empties the store the followers read
+                        if (*o == op::FLUSH || *o == op::FLUSHQ) && bc < 2 {
                             continue;
                         }
                         cases.push((*l, *o, bc, pos, split));
@@ -1394,7 +1399,7 @@ pub fn run_sock_frames(ctx: &Ctx) -> i32 {
             });
         }
     });
-    if matches!(ctx.prop.as_str(), "C09" | "C13") && ctx.only_case.is_none() {
+    if matches!(ctx.prop.as_str(), "C09" | "C13" | "C11") && ctx.only_case.is_none() {
         slow_body_scenarios(&shared, ctx.thorough());
     }
     shared.into_inner().unwrap().finish()
